@@ -201,7 +201,7 @@ func (r *loopRig) apply(op LOp) {
 		r.srv.Handle(upName(op.U))
 	case "gwSchema":
 		g := r.gw(op.G)
-		if g == nil || !g.alive {
+		if g == nil || !g.alive || op.U < 0 || op.U >= r.h.NUp {
 			return
 		}
 		x := g.uls[op.U]
